@@ -20,6 +20,10 @@ ASSUME_COMMON = [
 
 def setup(chk, pid):
     proved = prove(chk, pid)
+    used = sorted({a for t in chk.theorems.values() for a in t.get("axioms", [])})
+    chk.trusted.append("axioms the pinned theorems depend on (Print Assumptions, per theorem in coverage.theorems): " +
+                       (", ".join(used) + " — axioms of Coq's own standard library (classical reals, reached through Flocq in Proofs/FloatExact.v)"
+                        if used else "none (every pinned theorem is closed under the global context)"))
     chk.trusted += TRUSTED_COMMON
     chk.assumptions += ASSUME_COMMON
     C.build_driver()
